@@ -107,6 +107,12 @@ func ConcatItems[T any](items []T) (T, error) {
 		return t, err
 	}
 
+	if cv.Kind() == reflect.Interface && cv.IsNil() {
+		// T is an interface type and every item was nil: the empty value of T
+		var t T
+		return t, nil
+	}
+
 	return cv.Interface().(T), nil
 }
 
